@@ -67,12 +67,20 @@ def ensure_driver():
         raise AnalysisError('cannot build mirfacts driver:\n' + r.stderr[-4000:])
 
 
+def _tag(repo):
+    """cache namespace: /repo has its own; every other tree shares 'scratch' (or $GBSA_TAG) so that the dependency
+    build is reused and disk use stays bounded"""
+    if os.path.abspath(repo) == '/repo':
+        return 'repo'
+    return os.environ.get('GBSA_TAG', 'scratch')
+
+
 def generate(cfg, repo=None, cold=False):
     """Run the driver for one configuration; returns path of the facts file."""
     repo = repo or REPO
     ensure_driver()
     os.makedirs(CACHE, exist_ok=True)
-    tag = hashlib.sha1(os.path.abspath(repo).encode()).hexdigest()[:8] if os.path.abspath(repo) != '/repo' else 'repo'
+    tag = _tag(repo)
     target = os.path.join(CACHE, 'target-%s-%s' % (tag, cfg))
     out = os.path.join(CACHE, 'facts-%s-%s.json' % (tag, cfg))
     if cold and os.path.isdir(target):
@@ -115,7 +123,7 @@ def load(cfg, repo=None, cold=False):
         return _loaded[key]
     os.makedirs(CACHE, exist_ok=True)
     h = source_hash(repo)
-    tag = hashlib.sha1(os.path.abspath(repo).encode()).hexdigest()[:8] if os.path.abspath(repo) != '/repo' else 'repo'
+    tag = _tag(repo)
     out = os.path.join(CACHE, 'facts-%s-%s.json' % (tag, cfg))
     stamp = out + '.hash'
     fresh = (not cold and os.path.exists(out) and os.path.exists(stamp)
